@@ -259,21 +259,26 @@ example : (mpf_mul_ui 0 (mkSt r5 default default) .r (B - 1)).ok = true := by de
 -- negative: `prec = r->_mp_prec + 1` keeps three limbs and stores the carry at rp[3]
 example : (mpf_mul_ui 1 (mkSt r2 u5 default) .u (B - 1)).ok = false := by decide
 
-/-- mpf_add (r, u, v) (mpf/add.c), operands of equal sign or a zero operand (different signs: the call goes to mpf_sub,
-    `mpf_add = none`), every operand length and exponent, every alias pattern (u, v ∈ {r, u, v}: r == u, r == v, u == v, all
+/-- mpf_add (r, u, v) (mpf/add.c), EVERY sign combination (different signs: add.c:56-64 hands the call to mpf_sub with a
+    negated copy of v's header — the equal-sign path of sub.c, mirrored at store level by `subStore`: exactly the result
+    limbs at rp[0, rsize), see `mpf_sub_dest_safe_partial` for what that level leaves out), every operand length and exponent, every alias pattern (u, v ∈ {r, u, v}: r == u, r == v, u == v, all
     three): no load or store leaves a block — the operands are read inside their |SIZ| limbs after the two cuts to `prec`
     limbs; the three alignments fill at most `prec` limbs of the TMP area of `prec` limbs; MPN_COPY (rp, tp, rsize) and the
     UNCONDITIONAL store `rp[rsize] = cy` use indices ≤ PREC, inside the PREC + 1 limbs; the early copy of the
     `ediff >= prec` case copies ≤ PREC limbs (none when rp == up) —, the other variables, PREC (r) and the block length are
     unchanged, and SIZ, EXP and the limbs are those of the bit-exact C13 model `Mpf.add` (with its `r == u`, `r == v` flags).
-    Hypotheses: the operands' limbs are proper limbs (`Limbs`, part of `Mpf.OpWF`). -/
-theorem mpf_add_dest_safe (s : St) (us vs : Src) (hs : s.ok = true) (hr : DestWF s.r)
-    (hu : OpndWF (s.obj us)) (hv : OpndWF (s.obj vs)) (hlu : Limbs (s.obj us).view.d) (hlv : Limbs (s.obj vs).view.d) :
-    ∀ s', mpf_add 0 s us vs = some s' →
+    Hypotheses: PREC ≥ 2 (every mpf_init2 / mpf_set_prec gives that: __GMPF_BITS_TO_PREC), operands in mpf format (`Mpf.OpWF`:
+    proper limbs, top limb non-zero, zero has exponent 0).  `mpf_add` always answers `some`. -/
+theorem mpf_add_dest_safe (s : St) (us vs : Src) (hs : s.ok = true) (hr : DestWF s.r) (hp : 2 ≤ s.r.prec)
+    (hu : OpndWF (s.obj us)) (hv : OpndWF (s.obj vs)) (hou : Mpf.OpWF (s.obj us).view) (hov : Mpf.OpWF (s.obj vs).view) :
+    (mpf_add 0 s us vs).isSome = true ∧ ∀ s', mpf_add 0 s us vs = some s' →
       s'.ok = true ∧ s'.u = s.u ∧ s'.v = s.v ∧ s'.r.prec = s.r.prec ∧ s'.r.blk.alloc = s.r.blk.alloc ∧ BlkWF s'.r.blk ∧
       s'.r.view = Mpf.add s.r.prec (decide (us = .r)) (decide (vs = .r)) (s.obj us).view (s.obj vs).view := by
+  have hlu := hou.1
+  have hlv := hov.1
+  refine ⟨by unfold mpf_add; simp only; split_ifs <;> rfl, ?_⟩
   intro s' h
-  have F := mpf_add_frame s us vs hs hr hu hv s' h
+  have F := mpf_add_frame s us vs hs hr hp hu hv hou hov s' h
   refine ⟨F.ok, F.u, F.v, F.prec, F.alloc, F.wf, ?_⟩
   unfold mpf_add at h
   unfold Mpf.add
@@ -299,7 +304,12 @@ theorem mpf_add_dest_safe (s : St) (us vs : Src) (hs : s.ok = true) (hr : DestWF
     · rw [if_neg hv0] at h
       rw [if_neg (show ¬ (s.obj vs).view.size = 0 from hv0)]
       by_cases hsg : (decide ((s.obj us).size < 0) != decide ((s.obj vs).size < 0)) = true
-      · rw [if_pos hsg] at h; cases h
+      · rw [if_pos hsg] at h
+        rw [if_pos (show ((decide ((s.obj us).view.size < 0) != decide ((s.obj vs).view.size < 0)) = true) from hsg)]
+        cases h
+        exact (subStore_spec s us vs _ hs hr hu hv
+          (Mpf.subMag_spec s.r.prec hp (s.obj us).view _ hou (Mpf.OpWF_neg_size _ hov) hu0 (by simpa [FObj.view] using hv0)
+            (sign_flip hu0 hv0 hsg)).1 (subMag_prec _ _ _ _)).2
       · rw [if_neg hsg] at h
         rw [if_neg (show ¬ ((decide ((s.obj us).view.size < 0) != decide ((s.obj vs).view.size < 0)) = true) from hsg)]
         cases h
@@ -318,12 +328,12 @@ theorem mpf_add_dest_safe (s : St) (us vs : Src) (hs : s.ok = true) (hr : DestWF
 
 
 /-- mpf_add, non-zero operands of equal sign: the result header is well formed (|SIZ| ≤ PREC + 1, top limb non-zero). -/
-theorem mpf_add_dest_wf (s : St) (us vs : Src) (hs : s.ok = true) (hr : DestWF s.r) (hp : 1 ≤ s.r.prec)
+theorem mpf_add_dest_wf (s : St) (us vs : Src) (hs : s.ok = true) (hr : DestWF s.r) (hp : 2 ≤ s.r.prec)
     (hu : OpndWF (s.obj us)) (hv : OpndWF (s.obj vs)) (hou : Mpf.OpWF (s.obj us).view) (hov : Mpf.OpWF (s.obj vs).view)
     (hu0 : (s.obj us).size ≠ 0) (hv0 : (s.obj vs).size ≠ 0) (hsg : (s.obj us).size < 0 ↔ (s.obj vs).size < 0) :
     ∀ s', mpf_add 0 s us vs = some s' → Mpf.WF s'.r.view := by
   intro s' h
-  rw [(mpf_add_dest_safe s us vs hs hr hu hv hou.1 hov.1 s' h).2.2.2.2.2.2]
+  rw [((mpf_add_dest_safe s us vs hs hr hp hu hv hou hov).2 s' h).2.2.2.2.2.2]
   have e : Mpf.add s.r.prec (decide (us = .r)) (decide (vs = .r)) (s.obj us).view (s.obj vs).view =
       Mpf.addSame s.r.prec (s.obj us).view (s.obj vs).view := by
     unfold Mpf.add
@@ -336,7 +346,7 @@ theorem mpf_add_dest_wf (s : St) (us vs : Src) (hs : s.ok = true) (hr : DestWF s
         simp [hn, this]
     rw [if_neg this]
   rw [e]
-  exact (Mpf.addSame_spec s.r.prec hp _ _ hou hov hu0 hv0 hsg).1
+  exact (Mpf.addSame_spec s.r.prec (by omega) _ _ hou hov hu0 hv0 hsg).1
 
 /-- three limbs of ones, exponent 3 -/
 def u3 : FObj := mkObj 0 false 3 [B - 1, B - 1, B - 1] 1
@@ -441,5 +451,91 @@ theorem mpf_div_2exp_dest_safe (s : St) (x : Src) (e : Nat) (hs : s.ok = true) (
 example : (fun s : St => (s.ok, s.out)) (mpf_div_2exp 0 (mkSt r2 u5 default) .u 1) = (true, -3, 7, [0, 2 ^ 63 + 2, 2]) := by decide
 example : (fun s : St => (s.ok, s.out)) (mpf_div_2exp 0 (mkSt r5 default default) .r 63) = (true, -2, 6, [8, 10, 0, 4, 5]) := by decide
 example : (mpf_div_2exp 1 (mkSt r2 u5 default) .u 1).ok = false := by decide
+
+/-- mpf_sub (r, u, v) (mpf/sub.c) for every sign combination, operand length, exponent and alias pattern (r == u, r == v,
+    u == v, all three).  PARTIAL.  Proved: `ok` stays true, the other variables, PREC (r) and the block length are unchanged,
+    SIZ, EXP and the limbs are those of the bit-exact C13 model `Mpf.sub` (cancellation scan for equal exponents, the
+    x+1 000… / x fff… path, `uexp - vexp >= prec` early copy, the alignments with their borrow, the strip of high zero
+    limbs), and the header is well formed (`Mpf.WF`; for the in-place cases `mpf_sub (r, 0, r)` / `mpf_sub (r, r, 0)`, which store
+    no limb, when the destination's own |SIZ| fits its PREC + 1).  The paths are mirrored at these levels: a zero operand —
+    mpf_neg / mpf_set, index-checked; operands of different sign — mpf_add's equal-sign path (`addSameSign`), index-checked
+    including the TMP area; operands of equal sign — STORE level (`subStore`): the only stores through rp in sub.c:65-410 are
+    the MPN_COPYs of :122, :286, :297, :309, :402, i.e. exactly the |SIZ| result limbs at rp[0, |SIZ|), |SIZ| ≤ PREC + 1 by
+    `Mpf.subMag_spec`; the operands are loaded inside their own |SIZ| limbs.
+    Missing (run only, ops `as7_sub` with guard limbs; C13 ties the values): the TMP-area traffic of the equal-sign path
+    (TMP_ALLOC of PREC + 1 limbs at :199 / :280; `tp[size] = 1` at :208, :223, :254 and the alignment stores of :329-393 are
+    not index-checked), and the individual operand loads of the scans (:97-186, :293-317), checked as one load of the
+    whole |SIZ| range. -/
+theorem mpf_sub_dest_safe_partial (s : St) (us vs : Src) (hs : s.ok = true) (hr : DestWF s.r) (hp : 2 ≤ s.r.prec)
+    (hu : OpndWF (s.obj us)) (hv : OpndWF (s.obj vs)) (hou : Mpf.OpWF (s.obj us).view) (hov : Mpf.OpWF (s.obj vs).view) :
+    (mpf_sub s us vs).ok = true ∧ (mpf_sub s us vs).u = s.u ∧ (mpf_sub s us vs).v = s.v ∧
+    (mpf_sub s us vs).r.prec = s.r.prec ∧ (mpf_sub s us vs).r.blk.alloc = s.r.blk.alloc ∧ BlkWF (mpf_sub s us vs).r.blk ∧
+    (mpf_sub s us vs).r.view = Mpf.sub s.r.prec (decide (us = .r)) (decide (vs = .r)) (s.obj us).view (s.obj vs).view ∧
+    ((us = .r → s.r.size.natAbs ≤ s.r.prec + 1) → (vs = .r → s.r.size.natAbs ≤ s.r.prec + 1) →
+      Mpf.WF (mpf_sub s us vs).r.view) := by
+  have key : Fr s (mpf_sub s us vs) ∧
+      (mpf_sub s us vs).r.view = Mpf.sub s.r.prec (decide (us = .r)) (decide (vs = .r)) (s.obj us).view (s.obj vs).view := by
+    unfold mpf_sub Mpf.sub
+    simp only
+    by_cases hu0 : (s.obj us).size = 0
+    · rw [if_pos hu0, if_pos (show (s.obj us).view.size = 0 from hu0)]
+      exact mpf_neg_spec s vs hs hr hv
+    · rw [if_neg hu0, if_neg (show ¬ (s.obj us).view.size = 0 from hu0)]
+      by_cases hv0 : (s.obj vs).size = 0
+      · rw [if_pos hv0, if_pos (show (s.obj vs).view.size = 0 from hv0)]
+        by_cases hu' : us = .r
+        · subst hu'
+          exact ⟨by simp only [ne_eq, not_true_eq_false, if_false]; exact ⟨hs, rfl, rfl, rfl, rfl, hr.1⟩, by simp [St.obj, FObj.view]⟩
+        · simp only [hu', ne_eq, not_false_eq_true, if_true, decide_false, Bool.false_eq_true, if_false]
+          have h := mpf_set_dest_safe s us hs hr hu
+          exact ⟨⟨h.1, h.2.1, h.2.2.1, h.2.2.2.1, h.2.2.2.2.1, h.2.2.2.2.2.1⟩, h.2.2.2.2.2.2.1⟩
+      · rw [if_neg hv0, if_neg (show ¬ (s.obj vs).view.size = 0 from hv0)]
+        by_cases hsg : (decide ((s.obj us).size < 0) != decide ((s.obj vs).size < 0)) = true
+        · rw [if_pos hsg, if_pos (show ((decide ((s.obj us).view.size < 0) != decide ((s.obj vs).view.size < 0)) = true) from hsg)]
+          unfold Mpf.addSame
+          by_cases sw : (s.obj us).exp < (s.obj vs).exp
+          · have sw' : (s.obj us).view.exp < (s.obj vs).view.exp := sw
+            simp only [sw, sw', decide_true, if_true]
+            refine ⟨addSameSign_safe s _ vs us hs hr hv hu (by omega), ?_⟩
+            rw [addSameSign_view s _ vs us hs hr hv hu (by omega) hov.1 hou.1]
+            simp [FObj.view]
+            by_cases hn : (s.obj us).size < 0 <;> simp [hn]
+          · have sw' : ¬ (s.obj us).view.exp < (s.obj vs).view.exp := sw
+            simp only [sw, sw', decide_false, Bool.false_eq_true, if_false]
+            refine ⟨addSameSign_safe s _ us vs hs hr hu hv (by omega), ?_⟩
+            rw [addSameSign_view s _ us vs hs hr hu hv (by omega) hou.1 hov.1]
+            simp [FObj.view]
+            by_cases hn : (s.obj us).size < 0 <;> simp [hn]
+        · rw [if_neg hsg, if_neg (show ¬ ((decide ((s.obj us).view.size < 0) != decide ((s.obj vs).view.size < 0)) = true) from hsg)]
+          exact subStore_spec s us vs _ hs hr hu hv
+            (Mpf.subMag_spec s.r.prec hp (s.obj us).view (s.obj vs).view hou hov hu0 hv0 (sign_same hsg)).1 (subMag_prec _ _ _ _)
+  obtain ⟨F, hv'⟩ := key
+  refine ⟨F.ok, F.u, F.v, F.prec, F.alloc, F.wf, hv', fun fu fv => ?_⟩
+  rw [hv']
+  refine (Mpf.sub_accurate s.r.prec hp _ _ hou hov _ _ ?_ ?_).1
+  · intro h; have h' : us = .r := by simpa using h
+    subst h'; rw [hou.2.1]; exact fu rfl
+  · intro h; have h' : vs = .r := by simpa using h
+    subst h'; rw [hov.2.1]; exact fv rfl
+
+/-- four limbs, exponent 3; `sb` differs from `sa` in the lowest limb only (three equal high limbs: the scan) -/
+def sa : FObj := mkObj 0 false 3 [5, 7, 9, 11] 1
+def sb : FObj := mkObj 0 false 3 [6, 7, 9, 11] 1
+/-- 8 000… and 7 fff… 1: the x+1 000… / x fff… path -/
+def sc : FObj := mkObj 0 false 3 [0, 0, 8] 1
+def sd : FObj := mkObj 0 false 3 [1, B - 1, B - 1, 7] 1
+/-- the destination holding `sa` with PREC = 2 -/
+def r4 : FObj := mkObj 2 false 3 [5, 7, 9, 11] 3
+
+example : (fun s : St => (s.ok, s.out)) (mpf_sub (mkSt r2 sa sb) .u .v) = (true, -1, 0, [1, junk, junk]) := by decide
+example : (fun s : St => (s.ok, s.out)) (mpf_sub (mkSt r2 sc sd) .u .v) = (true, 1, 0, [B - 1, junk, junk]) := by decide
+-- r == u (four limbs in the object), and r == u == v: complete cancellation, SIZ = 0 and EXP = 0, no limb stored
+example : (fun s : St => (s.ok, s.out)) (mpf_sub (mkSt r4 default sb) .r .v) = (true, -1, 0, [1, 7, 9, 11]) := by decide
+example : (fun s : St => (s.ok, s.out)) (mpf_sub (mkSt r4 default default) .r .r) = (true, 0, 0, [5, 7, 9, 11]) := by decide
+-- mpf_add with operands of different sign takes the same path
+example : (mpf_add 0 (mkSt r2 sa { sb with size := -4 }) .u .v).map (fun s : St => (s.ok, s.out)) =
+    some (true, -1, 0, [1, junk, junk]) := by decide
+-- negative: a destination block of PREC limbs instead of PREC + 1 cannot take the three result limbs of 3 B^2 + 2 B + 1 - 1
+example : (mpf_sub (mkSt (mkObj 2 false 0 [] 2) (mkObj 0 false 3 [1, 2, 3] 1) (mkObj 0 false 1 [1] 1)) .u .v).ok = false := by decide
 
 end Mpir.AllocSafe7
